@@ -117,6 +117,22 @@ def heap_shapes(isa, tier):
     return sh
 
 
+def substitute_moves(isa, tier):
+    """maps between integer variables only (no heap effect): all maps m, n <= 3 (thorough: <= 4) over the windows of
+    substitute_shapes plus the all-spill window"""
+    mx = 3 if tier == 'quick' else 4
+    out = [s_ for s_ in S.substitute_shapes(isa, 'quick' if tier == 'quick' else 'thorough', mx, mx) if all(k == 'ext' for k in s_['old'])]
+    deep = S.DEEP[isa]
+    if deep is not None:
+        have = {(s_['p'], tuple(s_['map']), len(s_['old'])) for s_ in out}
+        for s_ in list(out):
+            k = (deep, tuple(s_['map']), len(s_['old']))
+            if k not in have and deep + max(len(s_['map']), len(s_['old'])) <= S.MAXVARS[isa]:
+                have.add(k)
+                out.append(dict(s_, p=deep))
+    return out
+
+
 def codegen_check(pid, isa, kani=None, kani_s=0.0):
     tier = fw.tier()
     chk = fw.Check(pid, 'proof')
@@ -135,6 +151,9 @@ def codegen_check(pid, isa, kani=None, kani_s=0.0):
     # quick: the heap-consistency goals (I', frame of fields) of these shapes are discharged under C09, the footprint
     # goals under C10; here: fault-freedom, dispatch, loaded / stored values, preserved variables.  thorough: all goals
     items += tiered(isa, heap_shapes, ['functional'] if tier == 'quick' else None, to)
+    # explicit substitutions move values between positions (parallel moves through the scratch registers): the assignment
+    # goals belong to semantic preservation; the sharing / erasing side of it is discharged under C11 and C09
+    items += items_for(isa, substitute_moves(isa, tier), 4, ['functional'], to)
     run_items(chk, items,
               rule="shapes enumerated exhaustively inside the stated windows/arity/kind bounds (gen/shapes.py); every shape is a "
                    "distinct emitted code fragment; per shape the solver decides fault-freedom, Spec and I' for all data")
